@@ -10,12 +10,16 @@
       age `i` is numerically ≥ all of them and everything newer is strictly smaller (`NewestMaxAt`, which
       determines `i` uniquely — `C04_newest_max_unique`); LowestIndex mirrored. Ties: the newest wins, both on
       the fast path (`>=`) and in the full rescan (strict `>` over the window newest-first).
-  HighestLowestDelta and SMM (+ the median inside MedianAbsDev) are modelled and at present compared with the
-  from-scratch selections of `YataModel/Spec.lean` by the correspondence run only (exact comparison, small
-  alphabets with ±0).
+    * SMM (for the total order of the bit patterns, `tcmp = compare`, i.e. `total_cmp` with −0 < +0): the binary
+      searches find the evicted element and a valid insertion point, the in-place shift (`copy_within` + store) is
+      "erase there, insert here", so after every stream the slice is THE ascending sort of the last `n` values and
+      `mid` returns its middle element(s) (`C04_smm`); no step can panic (`C04_smm_step`).
+  HighestLowestDelta (and the median inside MedianAbsDev) are modelled and compared with the from-scratch selections
+  of `YataModel/Spec.lean` by the correspondence run only (exact comparison, small alphabets with ±0).
 -/
 import YataProofs.Selection
 import YataProofs.SelectionIndex
+import YataProofs.SMM
 import YataProofs.Numeric.Common
 import Mathlib.Algebra.Order.Ring.Rat
 namespace Yata.C04
@@ -105,6 +109,30 @@ theorem C04_newest_max_unique {i i' : Nat} {m m' : β} {r : List β} (h : Newest
 theorem C04_newest_min_unique {i i' : Nat} {m m' : β} {r : List β} (h : NewestMinAt i m r) (h' : NewestMinAt i' m' r) :
     i = i' := h.unique h'
 
+section SMMSection
+variable {γ : Type} [LinearOrder γ] [TotalCmp γ] [TotalLike γ]
+
+theorem C04_smm_step {s : SMM γ} (value : γ) (h : SMM.Inv P s) :
+    ∃ s', s.step value = .ok s' ∧ SMM.Inv P s' ∧
+      Window.toList s'.window = (Window.toList s.window).tail ++ [value] ∧ s'.half = s.half ∧ s'.half_m1 = s.half_m1 :=
+  SMM.step_spec value h
+
+theorem C04_smm {n : Nat} (v : γ) (hn0 : 0 < n) (hn : n ≤ P - 1) (xs : List γ) :
+    ∃ s0 s', SMM.new P n v = .ok s0 ∧ (xs.foldlM (fun s x => SMM.step s x) s0 = .ok s') ∧
+      s'.slice = (lastN n (history n v xs)).mergeSort (fun a b => decide (a ≤ b)) ∧
+      s'.half = n / 2 ∧ s'.half_m1 = n / 2 - (if n % 2 = 0 then 1 else 0) ∧
+      ∃ a b, s'.mid = .ok (a, b) ∧ s'.slice[n / 2]? = some a ∧ s'.slice[n / 2 - (if n % 2 = 0 then 1 else 0)]? = some b :=
+  SMM.run_spec v hn0 hn xs
+/-! non-vacuity: the rationals with their numeric comparison are a `TotalLike` order (the driver's scalar) -/
+instance : TotalLike ℚ where
+  tcmp_eq a b := by
+    show (if a < b then Ordering.lt else if b < a then Ordering.gt else Ordering.eq) = compare a b
+    rcases lt_trichotomy a b with h | h | h
+    · rw [if_pos h, compare_lt_iff_lt.mpr h]
+    · subst h; simp
+    · rw [if_neg (not_lt.mpr (le_of_lt h)), if_pos h, compare_gt_iff_gt.mpr h]
+end SMMSection
+
 /-- zero length is rejected -/
 theorem C04_zero_length (v : β) :
     (∃ e, Highest.new P 0 v = .err e) ∧ (∃ e, Lowest.new P 0 v = .err e) :=
@@ -136,3 +164,5 @@ end Yata.C04
 #print axioms Yata.C04.C04_lowest_index
 #print axioms Yata.C04.C04_newest_max_unique
 #print axioms Yata.C04.C04_newest_min_unique
+#print axioms Yata.C04.C04_smm_step
+#print axioms Yata.C04.C04_smm
